@@ -185,6 +185,7 @@ Proof.
     destruct b; repeat constructor; discriminate.
   - inversion H; subst; clear H; cbn [out0_nulfree]. split; [exact F|exact I].
   - inversion H; subst; clear H; cbn [out0_nulfree]. split; [exact F|exact I].
+  - inversion H; subst; clear H; cbn [out0_nulfree]. split; [exact F|exact I].
 Qed.
 
 Lemma produce0_nulfree l o r : nulfree l -> args_ok o -> produce0 l o = Some r -> out0_nulfree r.
